@@ -50,6 +50,9 @@ CURVES = {
         hash="sha512"),
 }
 RAW_LENS = (64, 65, 96, 97, 132, 133)
+# first bytes of a raw blob that collide with a format marker: NUL, uncompressed-point tag, '-', DER SEQUENCE, ASCII hex digits / "0x"
+# (OTPS text), 'x', top bit, 0xFF, UTF-8 lead bytes
+MARKER_BYTES = (0x00, 0x04, 0x2D, 0x30, 0x31, 0x39, 0x41, 0x46, 0x61, 0x66, 0x78, 0x7F, 0x80, 0xC2, 0xE0, 0xF0, 0xFF, 0x02, 0x03, 0x0A, 0x20)
 
 
 # ------------------------------------------------------------------------------------------------ independent verifiers
@@ -529,6 +532,15 @@ def run(ck):
             sig_case(curve, rng.randrange(1, n), v, "boundary")
         for _ in range(ck.budget(250, 15000)):
             sig_case(curve, rng.randrange(1, n), rng.randrange(1, n), "random")
+        for b in range(256):  # every value of the FIRST byte of the raw form (0x30 = DER SEQUENCE tag, 0x2D = '-', 0x04, 0x00, 0x80, 0xFF ...)
+            tail = rng.getrandbits(8 * (cl - 1))
+            sig_case(curve, (b << (8 * (cl - 1))) | tail, rng.randrange(1, n), f"lead-byte-r{'/marker' if b in MARKER_BYTES else ''}")
+            sig_case(curve, rng.randrange(1, n), (b << (8 * (cl - 1))) | tail, f"lead-byte-s{'/marker' if b in MARKER_BYTES else ''}")
+        # raw signatures that look like the start of a DER signature: 30 <len> 02 <len> ...
+        for total in (2 * cl,):
+            pre = bytes([0x30, total - 2, 0x02, cl - 4]) if total - 2 < 128 else bytes([0x30, 0x81, total - 3, 0x02])
+            r0 = int.from_bytes(pre + bytes(rng.getrandbits(8) for _ in range(cl - len(pre))), "big")
+            sig_case(curve, r0, rng.randrange(1, n), "lead-byte-r/der-lookalike")
         for v in (256 ** cl, 256 ** cl + 5, 2 ** (8 * cl + 7)):  # do not fit: export must refuse
             sig_case(curve, v, 1, "overflow")
             sig_case(curve, 1, v, "overflow")
@@ -759,6 +771,99 @@ def run(ck):
                 if oc[0] == "ok":
                     r = pyres(oc[1].validate, cert)
                     s.expect(r == ("ok", False), inp + ("validate-other",), "certificate signed by another key validates under this key", r)
+    # ---- FIRST BYTE of the raw encodings, swept systematically.  ECC: private scalars d = 1, 2, 3, ... (deterministic spread) until every
+    # value 0x00..0xFF has been seen as the leading byte of X and of Y (cap N); every first occurrence goes through ALL auto-detecting and
+    # type-specific entry points and the model.  secp521r1's leading byte is 0 or 1 (521 bits in 66 bytes): its second byte is swept instead.
+    class _CheckSP(SignatureProvider):
+        identifier = "verif-c08-check"
+
+        def __init__(self, expected):
+            self.expected = expected
+
+        def sign(self, data):
+            return b""
+
+        @property
+        def signature_length(self):
+            return 0
+
+        def verify_public_key(self, public_key):
+            return pubnum(public_key) == self.expected
+
+    lead_cov = {}
+    cap = ck.budget(6000, 60000)
+    for curve, c in CURVES.items():
+        cl = c["cl"]
+        pos = 1 if curve == "secp521r1" else 0  # byte position swept
+        seen = {"x": {}, "y": {}}
+        cobj = KeyEccCommon._get_ec_curve_object(EccCurve(curve))
+        d = 0
+        while d < cap and (len(seen["x"]) < 256 or len(seen["y"]) < 256):
+            d += 1
+            pn = ec.derive_private_key(d, cobj).public_key().public_numbers()
+            bx, by = pn.x.to_bytes(cl, "big")[pos], pn.y.to_bytes(cl, "big")[pos]
+            new_x, new_y = bx not in seen["x"], by not in seen["y"]
+            if not (new_x or new_y):
+                continue
+            if new_x:
+                seen["x"][bx] = d
+            if new_y:
+                seen["y"][by] = d
+            marker = (new_x and bx in MARKER_BYTES) or (new_y and by in MARKER_BYTES)
+            pub = PublicKeyEcc.recreate(pn.x, pn.y, EccCurve(curve))
+            want_pub = f"ecc:{curve}:{pn.x}:{pn.y}"
+            data = pub.export(SPSDKEncoding.NXP)
+            inp = (curve, "first-byte", {"private_value": d, "x_byte": bx, "y_byte": by, "raw": data.hex()})
+            s.note(inp, cls=f"ecc/first-byte{'/marker' if marker else ''}")
+            s.expect(data == pn.x.to_bytes(cl, "big") + pn.y.to_bytes(cl, "big"), inp, "NXP raw export is not the fixed-width big-endian concatenation", data)
+            fpath = scratch / "fb.bin"
+            entries = [("PublicKey.parse", lambda: PublicKey.parse(data)), ("PublicKeyEcc.parse", lambda: PublicKeyEcc.parse(data)),
+                       ("PublicKeyEcc.recreate_from_data", lambda: PublicKeyEcc.recreate_from_data(data)),
+                       ("extract_public_key_from_data", lambda: sutils.extract_public_key_from_data(data))]
+            if marker or d % 7 == 0:
+                entries.append(("PublicKey.load", lambda: (fpath.write_bytes(data), PublicKey.load(str(fpath)))[1]))
+            for ename, fn in entries:
+                r = pyres(fn)
+                s.expect(r[0] == "ok" and pubnum(r[1]) == want_pub, inp + (ename,), "parsed public key differs from the exported one (raw NXP form)",
+                         r if r[0] != "ok" else pubnum(r[1])[:80], want_pub[:80])
+            r = pyres(_CheckSP(want_pub).try_to_verify_public_key, data)
+            s.expect(r == ("ok", None), inp + ("SignatureProvider.try_to_verify_public_key(bytes)",), "the raw public key is not accepted as matching", r)
+            r = pyres(PublicKeyRsa.parse, data)
+            s.expect(r[0] == "E:spsdk", inp + ("wrong type",), "PublicKeyRsa.parse of a raw ECC key does not refuse with an SPSDK error", r)
+            pub_parse_reqs(data, f"{curve}/first-byte")
+        lead_cov[curve] = {"byte_position": pos, "x_values": len(seen["x"]), "y_values": len(seen["y"]), "scalars_tried": d,
+                           "marker_bytes_x": sorted(b for b in MARKER_BYTES if b in seen["x"]), "d_for_x_0x30": seen["x"].get(0x30)}
+    # RSA: the modulus has its top bit set, so its first byte is 0x80..0xFF - every value, on synthetic odd moduli (public key only)
+    rsa_seen = 0
+    for bits in (2048,) if ck.quick else (2048, 3072, 4096):
+        for b in range(0x80, 0x100):
+            nmod = (b << (bits - 8)) | rng.getrandbits(bits - 8) | 1
+            r = pyres(PublicKeyRsa.recreate, 65537, nmod)
+            if r[0] != "ok":
+                continue
+            rsa_seen += 1
+            pub = r[1]
+            data = pub.export(SPSDKEncoding.NXP)
+            inp = (f"rsa{bits}", "first-byte", b, {"n": nmod})
+            s.note(inp, cls="rsa/first-byte")
+            for ename, fn in (("PublicKey.parse", PublicKey.parse), ("PublicKeyRsa.parse", PublicKeyRsa.parse), ("extract_public_key_from_data", sutils.extract_public_key_from_data)):
+                r = pyres(fn, data)
+                s.expect(r[0] == "ok" and pubnum(r[1]) == f"rsa:{nmod}:65537", inp + (ename,), "parsed public key differs from the exported one (raw NXP form)", r)
+            if b in (0x80, 0xC2, 0xE0, 0xF0, 0xFF) or b % 16 == 0:
+                pub_parse_reqs(data, f"rsa{bits}/first-byte")
+    lead_cov["rsa_modulus_first_bytes"] = rsa_seen
+    # raw private scalars (read by nxpcrypto's reconstruct_key only): every first byte, P-256 and P-384
+    from spsdk.apps.nxpcrypto import reconstruct_key
+    for curve, width in (("secp256r1", 32), ("secp384r1", 48)):
+        for b in range(256):
+            dv = ((b << (8 * (width - 1))) | rng.getrandbits(8 * (width - 1))) % CURVES[curve]["n"] or 1
+            raw = dv.to_bytes(width, "big")
+            inp = (curve, "raw-private-first-byte", raw[0], {"private_value": dv})
+            s.note(inp, cls="ecc/raw-private-first-byte")
+            r = pyres(reconstruct_key, raw)
+            s.expect(r[0] == "ok" and isinstance(r[1], PrivateKeyEcc) and r[1].d == dv and r[1].curve.value == curve, inp,
+                     "nxpcrypto reconstruct_key does not recover a raw private scalar", r if r[0] != "ok" else repr(r[1]))
+    ck.extra["first_byte_coverage"] = lead_cov
     # malformed / boundary-length blobs through every public entry point (correspondence only: accept/reject class and numbers)
     for L in (0, 1, 63, 64, 65, 70, 71, 72, 73, 74, 95, 96, 97, 102, 103, 105, 106, 131, 132, 133, 138, 139, 141, 142, 258, 259, 260, 261, 386, 387, 388, 389, 514, 515, 516, 517):
         for _ in range(ck.budget(1, 4)):
@@ -951,6 +1056,22 @@ def run(ck):
                 if found >= ck.budget(2, 12):
                     break
         ck.extra.setdefault("leading_zero_signatures", {})[curve] = found
+    # real raw signatures starting with the DER SEQUENCE tag 0x30 (and with '-'): rejection sampling, ~1/256 per signature
+    for curve in ("secp256r1", "secp384r1"):
+        label, k = next((ll, kk) for ll, kk in keys if ll == curve)
+        pub = k.get_public_key()
+        want = {0x30, 0x2D}
+        for i in range(ck.budget(4000, 20000)):
+            msg = b"fb%d" % i
+            sig = k.sign(msg)
+            if sig[0] in want:
+                want.discard(sig[0])
+                inp = (label, "raw-first-byte", sig[0], msg, sig.hex())
+                s.note(inp, cls=f"ecc/{curve}/raw-first-byte-marker")
+                check_ecc_sig(label, k, pub, sig, msg, CURVES[curve]["hash"], False, inp)
+                if not want:
+                    break
+        ck.extra.setdefault("raw_signature_marker_first_bytes_missing", {})[curve] = sorted(want)
     # valid signatures with a chosen DER length: pick k and s, solve the private key d = (s*k - z) / r mod n  (a real key pair)
     ncon = 0
     for curve, c in CURVES.items():
